@@ -135,6 +135,35 @@ pub fn run(ctx: &Ctx) {
         holder = None;
         let _ = &holder;
         settle(ctx, w2, "overwritten by assignment");
+        // overwriting an existing key: clone_from, plain assignment, Option::replace, Vec::clear/truncate
+        {
+            let mut a = PrivateKey::try_from(&raw[..]).unwrap();
+            let b = PrivateKey::generate();
+            let wa = watch_sk(&a, "try_from");
+            a.clone_from(&b);
+            settle(ctx, wa, "overwritten by clone_from");
+            let wa2 = watch_sk(&a, "clone");
+            a = b.clone();
+            settle(ctx, wa2, "overwritten by assignment of a clone");
+            let mut o = Some(a);
+            let wo = watch_sk(o.as_ref().unwrap(), "clone");
+            let old = o.replace(PrivateKey::generate());
+            drop(old);
+            settle(ctx, wo, "Option::replace");
+            let mut v = vec![PrivateKey::generate(), b.clone(), b.clone()];
+            let (w0, w1, w2) = (watch_sk(&v[0], "generate"), watch_sk(&v[1], "clone"), watch_sk(&v[2], "clone"));
+            v.truncate(2);
+            settle(ctx, w2, "Vec::truncate");
+            v.clear();
+            settle(ctx, w0, "Vec::clear");
+            settle(ctx, w1, "Vec::clear");
+            let mut p1 = PayloadKey::new(&raw);
+            let p2 = PayloadKey::new(b.as_bytes());
+            p1.clone_from(&p2);
+            if p1.as_bytes() != p2.as_bytes() {
+                ctx.violation("C20:PayloadKey-clone_from-wrong-value", json!({}));
+            }
+        }
         // struct field and Vec element
         struct Pair {
             _a: PrivateKey,
